@@ -58,6 +58,7 @@ type txProg struct {
 
 type keyspace struct {
 	nIdx  int
+	round int      // current round (set before the programs of a round are generated)
 	keys  []string // keys written non-transiently
 	tkeys []string // keys only ever written with SetTransient
 	miss  []string // keys never written
@@ -88,6 +89,54 @@ func (ks *keyspace) indexOf(k string) int {
 		return 1
 	}
 	return 0
+}
+
+// freshPrefix is a key family nobody has written before round ks.round: the i-th transactions of all
+// goroutines of the round share it, so that keys under it are being inserted while others read it.
+func (ks *keyspace) freshPrefix(idx, i int) string {
+	return fmt.Sprintf("%sn%02d_%d", idxPrefix(idx), ks.round, i)
+}
+
+// ownPrefixProg: the transaction writes a key nobody else writes and then reads it back ONLY through prefix
+// gets (and, in a minority, short reader passes) that its own pending entry answers; whether that answer is
+// the one of its commit point depends on nothing but the absence of a smaller key with the prefix, which
+// write-only committers and the sibling transactions insert meanwhile. Most of these programs contain no
+// other read at all.
+func (ks *keyspace) ownPrefixProg(r *rand.Rand, vg valGen, n int) *txProg {
+	p := &txProg{Name: fmt.Sprintf("%s#%d", vg.name, n), Mode: "rw", Must: mustKinds[r.IntN(len(mustKinds))], Renew: renewKinds[r.IntN(len(renewKinds))]}
+	fp := ks.freshPrefix(r.IntN(2), n)
+	own := fp + "m" + vg.name // committers insert fp+"c…": smaller
+	p.Ops = append(p.Ops, opSpec{K: "set", Key: own, Val: vg.next()})
+	if r.IntN(4) == 0 {
+		p.Ops = append(p.Ops, opSpec{K: "set", Key: fp + "p" + vg.name, Val: vg.next()})
+	}
+	pure := r.IntN(10) < 7
+	for i, k := 0, 1+r.IntN(3); i < k; i++ {
+		op := opSpec{K: "prefix", Prefix: []string{fp, fp, fp + "m", fp[:len(fp)-1]}[r.IntN(4)], Filters: fExpired | fDeleted}
+		switch r.IntN(4) {
+		case 0:
+			op.Neq = fp + "a" // below everything written under the prefix
+		case 1:
+			op.Neq = fp + "d" // above the committers' keys: the answer does not depend on them
+		}
+		if r.IntN(3) == 0 {
+			op.Filters = filters(r)
+		}
+		if !pure && r.IntN(3) == 0 {
+			// reader pass ending at the own key (early termination)
+			op = opSpec{K: "scan", Prefix: fp, Desc: r.IntN(4) == 0, IncSeek: true, Steps: []scanStep{{K: "read"}}}
+		}
+		p.Ops = append(p.Ops, op)
+	}
+	if !pure {
+		if r.IntN(2) == 0 {
+			p.Ops = append(p.Ops, ks.readOp(r, true, false, vg))
+		} else {
+			p.Ops = append(p.Ops, ks.writeOp(r, vg))
+		}
+	}
+	p.End = []string{"commit", "commit", "commit", "async", "async", "commit", "async", "commit", "commit", "cancel"}[r.IntN(10)]
+	return p
 }
 
 func (ks *keyspace) key(r *rand.Rand) string {
@@ -154,7 +203,7 @@ func (ks *keyspace) scan(r *rand.Rand, wrote, ro bool, vg valGen) opSpec {
 	wset := !ro && op.Offset == 0 && op.Filters == 0 && r.IntN(8) == 0
 	between := !wrote && !wset && r.IntN(4) == 0
 	pass := func() {
-		n := 40 // until the end
+		n := 64 // until the end
 		if r.IntN(5) < 2 {
 			n = 1 + r.IntN(4) // early termination
 		}
@@ -221,6 +270,9 @@ var mustKinds = []string{"nil", "zero", "zero", "half", "last", "one"}
 var renewKinds = []string{"0", "0", "1h", "1ns"}
 
 func (ks *keyspace) rwProg(r *rand.Rand, vg valGen, n int) *txProg {
+	if r.IntN(100) < 22 {
+		return ks.ownPrefixProg(r, vg, n)
+	}
 	p := &txProg{Name: fmt.Sprintf("%s#%d", vg.name, n), Mode: "rw", Must: mustKinds[r.IntN(len(mustKinds))], Renew: renewKinds[r.IntN(len(renewKinds))]}
 	nops := 2 + r.IntN(6)
 	wrote := false
@@ -266,6 +318,13 @@ func (ks *keyspace) woProg(r *rand.Rand, vg valGen, n int) *txProg {
 			md = mdLive
 		}
 		p.Ops = append(p.Ops, opSpec{K: "set", Key: key, Val: vg.next(), MD: md})
+	}
+	if r.IntN(10) < 6 {
+		// a key below the ones the own-prefix programs of this step write
+		p.Ops = append(p.Ops, opSpec{K: "set", Key: ks.freshPrefix(r.IntN(2), n) + "c" + vg.name, Val: vg.next()})
+	}
+	if len(p.Ops) == 0 {
+		p.Ops = append(p.Ops, opSpec{K: "set", Key: ks.keys[r.IntN(len(ks.keys))], Val: vg.next()})
 	}
 	return p
 }
